@@ -124,8 +124,18 @@ static void *vf_register(void *p, size_t size) {
     }
     return p;
 }
-static void *vf_malloc(size_t n) { return vf_register(malloc(n ? n : 1), n); }
-static void *vf_calloc(size_t a, size_t b) { return vf_register(calloc(a ? a : 1, b ? b : 1), a * b); }
+/* allocation fault injection: when armed with k > 0 the k-th allocation from now on fails (once); vf_fault_fired tells whether
+ * it was reached.  Single-threaded harnesses only arm it around one library call. */
+static long vf_fault_countdown;
+static long vf_fault_fired, vf_faults_total;
+static inline bool vf_fault_now(void) {
+    if (vf_fault_countdown > 0 && --vf_fault_countdown == 0) { vf_fault_fired++; vf_faults_total++; return true; }
+    return false;
+}
+static inline void vf_fault_arm(long k) { vf_fault_countdown = k; vf_fault_fired = 0; }
+static inline bool vf_fault_disarm(void) { vf_fault_countdown = 0; return vf_fault_fired > 0; }
+static void *vf_malloc(size_t n) { if (vf_fault_now()) return NULL; return vf_register(malloc(n ? n : 1), n); }
+static void *vf_calloc(size_t a, size_t b) { if (vf_fault_now()) return NULL; return vf_register(calloc(a ? a : 1, b ? b : 1), a * b); }
 static void vf_free(void *p) {
     if (!p) return;
     pthread_mutex_lock(&vf_alloc_mx);
